@@ -37,8 +37,14 @@ func quotient(root map[string]any, at any, args ...any) any {
 			case i == 0:
 				iq = ii
 			case isFloat:
+				if ii == 0 {
+					panic(fmt.Errorf("quotient attempted to divide by zero"))
+				}
 				fq /= float64(ii)
 			default:
+				if ii == 0 {
+					panic(fmt.Errorf("quotient attempted to divide by zero"))
+				}
 				iq /= ii
 			}
 		case float32, float64:
@@ -48,8 +54,14 @@ func quotient(root map[string]any, at any, args ...any) any {
 				fq = f
 				isFloat = true
 			case isFloat:
+				if f == 0.0 {
+					panic(fmt.Errorf("quotient attempted to divide by zero"))
+				}
 				fq /= f
 			default:
+				if f == 0.0 {
+					panic(fmt.Errorf("quotient attempted to divide by zero"))
+				}
 				isFloat = true
 				fq = float64(iq) / f
 			}
